@@ -48,7 +48,8 @@ FAMILIES = {
     },
     "C09": {
         "quick": dict(Vals="ValsGoodBad", InitVal="Init1", MaxRepOps=2, MaxCliOps=2, RepOps=S("val", "err"), CliOps=S("enable"), Delay="TRUE", Suppress="TRUE", MaxSerial=2),
-        "thorough": dict(Vals="ValsGoodBad", MaxRepOps=3, MaxCliOps=3, RepOps=S("val", "block", "err"), CliOps=S("enable", "view"), Delay="TRUE", Suppress="TRUE", MaxSerial=3),
+        "thorough": dict(Vals="ValsGoodBad", MaxRepOps=2, MaxCliOps=3, RepOps=S("val", "block", "err"), CliOps=S("enable", "view"), Delay="TRUE", Suppress="TRUE",
+                         MaxSerial=3, AllowCliCancel="TRUE"),
     },
 }
 
